@@ -891,6 +891,11 @@ func (pool *TxPool) removeTx(hash common.Hash) {
 			if pending.Empty() {
 				delete(pool.pending, addr)
 				delete(pool.beats, addr)
+				// The removed transaction was the lowest one: the rest is no longer
+				// executable but still known, it goes back to the future queue.
+				for _, tx := range invalids {
+					pool.enqueueTx(tx.Hash(), tx)
+				}
 			} else {
 				// Otherwise postpone any invalidated transactions
 				for _, tx := range invalids {
